@@ -205,6 +205,11 @@ def run(ctx):
             inp2 = os.path.join(sc, "c05_%d.in2" % i)
             open(inp2, "wb").write(mutate(rng, base_file(rng)[2])[0])
             args += [inp2]; otag = "two-files"
+        elif r < 0.56:
+            # output file names up to the 255-byte limit of a file name (the MSF title line carries the base name)
+            stem = "c05_%d_" % i
+            out = os.path.join(sc, stem + "o" * (rng.choice([150, 185, 190, 200, 215, 230, 250]) - len(stem) - 4) + ".out")
+            args[args.index("-o") + 1] = out; otag = "long-output-name"
         jobs.append(dict(i=i, args=args, tag=tag, otag=otag, fmt=fmt, out=out, inp=inp))
     # huge user penalties (at and beyond FLT_MAX) on inputs in which a terminal gap cannot be avoided (a sequence of a single residue next to longer
     # ones): each of the three penalties must either be rejected with a message or lead to a valid alignment
